@@ -9,6 +9,7 @@
 mod ast;
 mod frag;
 mod frag1;
+mod listgen;
 mod from_real;
 mod progen;
 mod shrink;
@@ -303,6 +304,15 @@ impl Checker {
     fn ask_model(&mut self, sx: &str) -> String {
         self.model.ask(&format!("(eval {sx} {FUEL})"))
     }
+    /// the implementation runs `src` as written, the model the converted program `p`
+    fn check_src(&mut self, p: &Program, src: &str) -> (Verdict, String, Impl) {
+        let imp = self.imp.run(src);
+        if let Impl::Rejected(_) = imp {
+            return (compare("", &imp), String::new(), imp);
+        }
+        let m = self.ask_model(&p.sx());
+        (compare(&m, &imp), m, imp)
+    }
     fn check(&mut self, p: &Program) -> (Verdict, String, Impl) {
         let imp = self.imp.run(&p.src());
         if let Impl::Rejected(_) = imp {
@@ -330,7 +340,39 @@ fn signature_of(model: &str, imp: &str) -> String {
     format!("core-program kind={kind}")
 }
 
+/// does the source define a type alias (`'name = …`)? Such a program is reported as written: the AST's own
+/// printer has no aliases (it prints the expanded types, and cannot print recursive ones)
+fn defines_alias(src: &str) -> bool {
+    let b = src.as_bytes();
+    let mut i = 0;
+    while i < b.len() {
+        if b[i] == b'\'' {
+            let mut j = i + 1;
+            while j < b.len() && (b[j].is_ascii_alphanumeric() || b[j] == b'_') {
+                j += 1;
+            }
+            if j > i + 1 && src[j..].starts_with(" = ") {
+                return true;
+            }
+        }
+        i += 1;
+    }
+    false
+}
+
 fn report(ev: &mut Ev, ck: &mut Checker, origin: &str, p: &Program, model: &str, imp: &str, forced_signature: Option<&str>) {
+    report_as(ev, ck, origin, p, model, imp, forced_signature, None)
+}
+
+#[allow(clippy::too_many_arguments)]
+fn report_as(ev: &mut Ev, ck: &mut Checker, origin: &str, p: &Program, model: &str, imp: &str, forced_signature: Option<&str>, written: Option<&str>) {
+    if let Some(src) = written.filter(|s| defines_alias(s)) {
+        let kind = signature_of(model, imp);
+        let signature = forced_signature.map(|s| s.to_string()).unwrap_or_else(|| kind.clone());
+        let what = format!("compiled program and reference semantics differ ({kind}): `{src}` runs to {imp} but docs/spec.md (reference evaluator) gives {model}");
+        ev.violation(&signature, &what, json!({"origin": origin, "source": src, "sexpr": p.sx(), "implementation": imp, "reference": model}), true);
+        return;
+    }
     // shrink: keep a candidate while it is accepted and still disagrees in the same way; a program
     // that does not have the shape of a known finding must not drift into one while shrinking
     let kind = signature_of(model, imp);
@@ -462,6 +504,20 @@ fn main() {
         return;
     }
 
+    // developer aid: `--probe-src '<source>'`: the ORIGINAL source on the implementation (type aliases,
+    // recursive types stay as written), the converted AST on the model
+    if let Some(i) = opts.extra.iter().position(|x| x == "--probe-src") {
+        let src = opts.extra.get(i + 1).cloned().unwrap_or_default();
+        match from_real::convert_source(&src) {
+            Ok(p) => {
+                let (v, m, i) = ck.check_src(&p, &src);
+                println!("implementation: {i:?}\nreference:      {m}\nverdict:        {v:?}");
+            }
+            Err(e) => println!("outside the fragment: {e}\nimplementation: {:?}", ck.imp.run(&src)),
+        }
+        return;
+    }
+
     // replay mode: a replay file written by this binary
     if let Some(rp) = &opts.replay {
         let j: serde_json::Value = serde_json::from_str(&std::fs::read_to_string(rp).expect("replay file")).expect("json");
@@ -533,7 +589,9 @@ fn main() {
             }
             match from_real::convert_source(line) {
                 Ok(p) => {
-                    let (v, m, i) = ck.check(&p);
+                    // the implementation runs the line as written (type aliases, recursive types), the
+                    // model the converted program
+                    let (v, m, i) = ck.check_src(&p, line);
                     ev.case(&origin, true);
                     match v {
                         Verdict::Agree => {
@@ -551,13 +609,23 @@ fn main() {
                                 // a must-pass entry the compiler no longer accepts
                                 report_rejected(&mut ev, &mut ck, &origin, &p, why, false);
                             }
+                            if let (Some(why), Some(sig)) = (w.strip_prefix("rejected:"), &expect_known) {
+                                // the witness of a registered finding whose face is the REJECTION of a valid program
+                                ev.hit("corpus.known-finding-reproduces");
+                                ev.violation(
+                                    sig,
+                                    &format!("the compiler rejects a valid program: `{line}`: {}", why.chars().take(160).collect::<String>()),
+                                    json!({"origin": origin, "source": line, "why": why}),
+                                    true,
+                                );
+                            }
                         }
                         Verdict::Disagree { model, imp } => {
                             let _ = (m, i);
                             if expect_known.is_some() {
                                 ev.hit("corpus.known-finding-reproduces");
                             }
-                            report(&mut ev, &mut ck, &origin, &p, &model, &imp, expect_known.as_deref());
+                            report_as(&mut ev, &mut ck, &origin, &p, &model, &imp, expect_known.as_deref(), Some(line));
                         }
                     }
                 }
@@ -799,6 +867,77 @@ fn main() {
             }
         }
         ev.set_extra("fragment1_programs", json!({"generated": nfrag, "instruction_sequences_equal": equal, "meaning_equals_real_value": values_equal}));
+    }
+
+    // ---- 2d. programs over recursive type aliases (generated as source text, see listgen.rs) --------
+    {
+        let n = opts.tier.pick(1500u64, 12000u64);
+        let mut agree = 0u64;
+        for i in 0..n {
+            if ck.imp.dead {
+                break;
+            }
+            let mut r = Rng::for_case(opts.seed ^ 0x715F, i);
+            let src = listgen::ListGen::new(&mut r).program();
+            let p = match from_real::convert_source(&src) {
+                Ok(p) => p,
+                Err(e) => {
+                    ev.hit("rectypes.unconvertible");
+                    eprintln!("rectypes program outside the converter's fragment ({e}): {src}");
+                    continue;
+                }
+            };
+            let (v, m, imp) = ck.check_src(&p, &src);
+            ev.case(&format!("rectypes:{src}"), m.starts_with("ok ") && m != "ok t(_;)");
+            if i < 2 {
+                ev.sample(json!({"rectypes_source": src, "reference": m}));
+            }
+            match v {
+                Verdict::Agree => {
+                    agree += 1;
+                    ev.hit("rectypes.agree");
+                    if src.contains("'tree {") {
+                        ev.hit("rectypes.with-tree-function");
+                    }
+                    if src.contains("'list, 'list]") {
+                        ev.hit("rectypes.with-list-to-list-function");
+                    }
+                    if src.contains("__integer_compare__") {
+                        ev.hit("rectypes.with-guard");
+                    }
+                }
+                Verdict::Skip(w) => {
+                    ev.hit(&format!("rectypes.skip.{}", w.split(':').take(2).collect::<Vec<_>>().join(":")));
+                    if opts.has_flag("--dump-rejects") {
+                        eprintln!("RECTYPES-SKIP {w}\n    {src}");
+                    }
+                    if let Some(why) = w.strip_prefix("rejected:") {
+                        // every program of this family is well typed by construction
+                        ev.violation(
+                            "rectypes kind=valid-program-rejected",
+                            &format!("the compiler rejects a well-typed program over recursive type aliases: `{src}`: {why}"),
+                            json!({"source": src, "sexpr": p.sx(), "why": why}),
+                            true,
+                        );
+                    }
+                }
+                Verdict::Disagree { model, imp: i2 } => {
+                    let _ = imp;
+                    ev.hit("rectypes.disagree");
+                    let kind = signature_of(&model, &i2).replace("core-program", "rectypes");
+                    ev.violation(
+                        &kind,
+                        &format!("compiled program and reference semantics differ ({kind}): `{src}` runs to {i2} but docs/spec.md (reference evaluator) gives {model}"),
+                        json!({"source": src, "sexpr": p.sx(), "implementation": i2, "reference": model}),
+                        true,
+                    );
+                    if ev.violation_count() >= 5 {
+                        break;
+                    }
+                }
+            }
+        }
+        ev.set_extra("rectypes_programs", json!({"generated": n, "agree": agree}));
     }
 
     // ---- 3. generated programs ---------------------------------------------------------------------
